@@ -286,7 +286,7 @@ type runOut struct {
 	overrun  bool // step budget exceeded (only shrink candidates do that)
 }
 
-const stepBudget = 3000000
+const stepBudget = 20000000
 
 type budgetExceeded struct{}
 
